@@ -1,7 +1,7 @@
 (* C04 -- property theorems only.  Proofs live in C04/Proofs*.v. *)
 From Coq Require Import NArith Arith List Bool.
 From DV Require Import Base.Outcome Base.Bytes Base.Lex Base.Names Base.PName C04.Gen C04.Model
-  C04.ProofsLabel C04.ProofsIter C04.ProofsRepr C04.ProofsData C04.ProofsParsed C04.ProofsEmbed C04.ProofsOrder.
+  C04.ProofsLabel C04.ProofsIter C04.ProofsRepr C04.ProofsData C04.ProofsParsed C04.ProofsEmbed C04.ProofsOrder C04.ProofsCompressed.
 Import ListNotations.
 Local Open Scope N_scope.
 
@@ -92,6 +92,18 @@ Print Assumptions C04_parsed_uncompressed_embedding.
 Theorem C04_parsed_uncompressed_same_as_flat : forall pre n post b rb, valid_abs n -> valid_abs b -> denotes rb (b ++ [[]]) -> let m := pre ++ wire_abs n ++ post in exists p, parse_ref m (N.of_nat (length pre)) (mlen m) = Ok p /\ m_name_eq (NParsed m p) rb = Ok (name_eqb n b) /\ m_name_cmp (NParsed m p) rb = Ok (name_cmp n b) /\ m_name_hash (NParsed m p) = Ok (name_hash_feed n).
 Proof. exact parsed_uncompressed_same_as_flat. Qed.
 Print Assumptions C04_parsed_uncompressed_same_as_flat.
+
+Theorem C04_parsed_denotes : forall m pos lim p, parse_ref m pos lim = Ok p -> lim <= mlen m -> wf_bytes m -> exists n, valid_abs n /\ pname_labels m p = Ok (n, true) /\ denotes (NParsed m p) (n ++ [[]]).
+Proof. exact parsed_denotes. Qed.
+Print Assumptions C04_parsed_denotes.
+
+Theorem C04_parsed_parsed_ops : forall m1 pos1 lim1 p1 m2 pos2 lim2 p2, parse_ref m1 pos1 lim1 = Ok p1 -> lim1 <= mlen m1 -> wf_bytes m1 -> parse_ref m2 pos2 lim2 = Ok p2 -> lim2 <= mlen m2 -> wf_bytes m2 -> exists a b, pname_labels m1 p1 = Ok (a, true) /\ pname_labels m2 p2 = Ok (b, true) /\ m_name_eq (NParsed m1 p1) (NParsed m2 p2) = Ok (name_eqb a b) /\ m_name_cmp (NParsed m1 p1) (NParsed m2 p2) = Ok (name_cmp a b) /\ m_name_hash (NParsed m1 p1) = Ok (name_hash_feed a) /\ m_composed_cmp (NParsed m1 p1) (NParsed m2 p2) = Ok (lex_cmp (wire_abs a) (wire_abs b)) /\ m_lc_composed_cmp (NParsed m1 p1) (NParsed m2 p2) = Ok (lex_cmp (wire_abs (canon a)) (wire_abs (canon b))).
+Proof. exact parsed_parsed_ops. Qed.
+Print Assumptions C04_parsed_parsed_ops.
+
+Theorem C04_parsed_any_ops : forall m pos lim p rb b, parse_ref m pos lim = Ok p -> lim <= mlen m -> wf_bytes m -> valid_abs b -> denotes rb (b ++ [[]]) -> exists a, pname_labels m p = Ok (a, true) /\ valid_abs a /\ m_name_eq (NParsed m p) rb = Ok (name_eqb a b) /\ m_name_eq rb (NParsed m p) = Ok (name_eqb b a) /\ m_name_cmp (NParsed m p) rb = Ok (name_cmp a b) /\ m_name_cmp rb (NParsed m p) = Ok (name_cmp b a) /\ m_name_hash (NParsed m p) = Ok (name_hash_feed a).
+Proof. exact parsed_any_ops. Qed.
+Print Assumptions C04_parsed_any_ops.
 
 Theorem C04_charstr_cmp_eq_iff : forall a b, m_charstr_cmp a b = Eq <-> m_charstr_eq a b = true.
 Proof. exact charstr_cmp_eq_iff. Qed.
